@@ -18,6 +18,7 @@
  R6 band test    : is_in_band keeps a channel iff its slot edges f -/+ sw/2 lie within [f_min, f_max] (non strict).
  Rm memo          : every memoisation construct in the functions behind this property is keyed by everything it reads.
  Rp presence      : optional numeric fields are tested with `is None` / membership, never by truthiness (0 is a value).
+ Rn arg roles     : a variable named like a parameter of the callee is handed to that parameter (no exchanged roles).
 """
 import ast
 
@@ -408,6 +409,15 @@ def r6_in_band(ctx):
 
 
 
+def rn_arg_roles(ctx):
+    """Rn: a variable named like a parameter of the callee is handed to that parameter (no exchanged roles such as
+    f(to_degree, from_degree) for def f(from_degree, to_degree)); calls to resolved package functions, canonical form"""
+    from .common import arg_roles_rule
+    from ..memo import scope_funcs
+    n = arg_roles_rule(ctx, 'Rn.arg-roles', scope_funcs(ctx.repo, 'C07'), 'a band or spectrum would be exchanged')
+    ctx.check('Rn.arg-roles', 'argument / parameter name scan', True, 'C07|arg-roles-scan', '', f'{n} argument(s) named like another parameter judged')
+
+
 from ..memo import rule_for as _memo_rule
 
 RULES_MEMO = ('Rm.memo', _memo_rule('C07', 'the band of another amplifier set would be used'))
@@ -418,4 +428,4 @@ from ..presence import rule_for as _presence_rule
 RULES_PRESENCE = ('Rp.presence', _presence_rule('C07', 'a legal zero would be read as missing'))
 
 RULES = [('R1.construction', r1_construction), ('R2.mux', r2_mux), ('R3.filter', r3_filter), ('R4.multiband', r4_multiband),
-         ('R5.carriers', r5_carriers), ('R6.in-band', r6_in_band), RULES_MEMO, RULES_PRESENCE]
+         ('R5.carriers', r5_carriers), ('R6.in-band', r6_in_band), RULES_MEMO, RULES_PRESENCE, ('Rn.arg-roles', rn_arg_roles)]
